@@ -399,10 +399,37 @@ func (s *Script) ParseInscription() (*InscriptionArgs, error) {
 	// always needs to be last and the previous fields can be
 	// reordered - this is based on the original ordinals
 	// indexer: https://github.com/casey/ord
+	// an empty content type or payload is pushed as OP_0, which DecodeParts reports as the
+	// one-byte part {0x00}: look at the opcode each part came from to tell that apart from
+	// a pushed zero byte.
+	contentType, data := p[9], p[11]
+	off := 0
+	for i := 0; i <= 11 && off < len(*s); i++ {
+		op := (*s)[off]
+		if op == OpFALSE && i == 9 {
+			contentType = []byte{}
+		}
+		if op == OpFALSE && i == 11 {
+			data = []byte{}
+		}
+		switch {
+		case op == OpPUSHDATA1:
+			off += 2 + len(p[i])
+		case op == OpPUSHDATA2:
+			off += 3 + len(p[i])
+		case op == OpPUSHDATA4:
+			off += 5 + len(p[i])
+		case op >= OpDATA1 && op <= OpDATA75:
+			off += 1 + len(p[i])
+		default:
+			off++
+		}
+	}
+
 	return &InscriptionArgs{
 		LockingScriptPrefix: s.Slice(0, 25),
-		Data:                p[11],
-		ContentType:         string(p[9]),
+		Data:                data,
+		ContentType:         string(contentType),
 		// EnrichedArgs: , // TODO:
 	}, nil
 }
